@@ -137,6 +137,7 @@ def render_text(P, power_name='power.csv'):
         L.append('')
     L.append('[Assignment]')
     L.append('    [[ByPosition]]')
+    rows = []
     for a in P['positions']:
         kw = []
         for k in ('flowrate', 'outlet_temp', 'delta_temp', 'group'):
@@ -145,9 +146,17 @@ def render_text(P, power_name='power.csv'):
         if a.get('raw_kw'):
             kw.append(a['raw_kw'])
         p2 = a.get('pos2', a['pos'])
-        L.append('        %s = %d, %d, %d, %s' % (a['type'], a['ring'],
-                                                  a['pos'], p2,
-                                                  ', '.join(kw)))
+        row = [a['type'], a['ring'], a['pos'], p2, ', '.join(kw)]
+        # one line for a run of neighbouring positions of a ring that share
+        # type and boundary condition (P['merge_lines'])
+        if P.get('merge_lines') and rows and rows[-1][0] == row[0] and \
+                rows[-1][1] == row[1] and rows[-1][3] + 1 == row[2] and \
+                rows[-1][4] == row[4] and 'pos2' not in a:
+            rows[-1][3] = p2
+        else:
+            rows.append(row)
+    for row in rows:
+        L.append('        %s = %d, %d, %d, %s' % tuple(row))
     L.append('')
     return '\n'.join(L)
 
